@@ -69,6 +69,13 @@ var propDefs = map[string]*PropDef{
 		},
 		Assume: []string{"map iteration is modelled with a ghost set of delivered keys (every key delivered exactly once)"},
 	},
+	"C07": {
+		ID: "C07", Funcs: "all", Floor: 30,
+		Unmech: []string{
+			"'evaluates as its fully parenthesised reading says' is the composition of the per-level parser lemmas (which level calls which, how each loop iteration extends the tree) with the per-node evaluation lemmas; the induction over the expression tree is on paper",
+			"lexing of the operator symbols (longest match) belongs to the lexer properties",
+		},
+	},
 	"C09": {
 		ID: "C09", Funcs: "all", Floor: 30,
 		Unmech: []string{
